@@ -102,6 +102,8 @@ fn real_main() {
         "reduce01" | "reduce" => props::tools::reduce01(&args[2..]),
         "dbg01" => props::tools::dbg01(&args[2..]),
         "c05-families" => props::tools::c05_families(),
+        "c16-batch" => props::c16::batch_main(),
+        "twice" => props::tools::twice(&args[2..]),
         id => {
             let prop = match props::lookup(id) {
                 Some(p) => p,
